@@ -7,10 +7,12 @@ LEVEL = "model_checking"
 
 
 def classify(rec, verdict):
-    return {"verdict": verdict, "src": "k%d %s" % (rec["src_ver"], rec["src_kind"]), "dst": "%s %s" % (rec["dst_be"], rec["dst_kind"])}
+    return {"verdict": verdict, "src": "%s %s" % (rec.get("src_ver", ""), rec["src_kind"]), "dst": "%s %s" % (rec["dst_be"], rec["dst_kind"])}
 
 
 def corrupt(rec, rng):
+    if rec["fn"] != "xparse":
+        return None
     same = rec["src_ver"] == rec["dst_ver"] and rec["src_kind"] == rec["dst_kind"]
     if not same and not rec["ok"] and rec["src_kind"].split(".")[0] != rec["dst_kind"].split(".")[0]:
         rec["ok"], rec["result"] = True, "ok"
@@ -38,11 +40,11 @@ def run(out, tier, seed):
     with open(f) as fh:
         for n, l in enumerate(fh):
             rec = json.loads(l)
-            if rec["src_ver"] != rec["dst_ver"] or rec["src_kind"] != rec["dst_kind"]:
+            if rec.get("src_ver") != rec["dst_ver"] or rec["src_kind"] != rec["dst_kind"]:
                 nt += 1
             if n % 2111 == 5 and len(out.samples) < 5:
                 s = dict(rec)
-                s["text"] = bytes(s["text"]).decode("latin1")[:80]
+                s["text"] = bytes(s.get("text", [])).decode("latin1")[:80]
                 out.samples.append(s)
     out.distinct_nontrivial = nt
     # header rewrite of authenticated blobs: relabel classes of the wrapped-key tamper campaign
